@@ -168,6 +168,10 @@ Complete(C, w0, tname, o, sels, rp, vp) ==
                             v |-> IF o.k = "val" THEN o.v
                                   ELSE IF C.S.types[tname].dflt # "" THEN C.S.types[tname].dflt ELSE vp],
                      isnull |-> FALSE, errs |-> <<>>, pos |-> {}, dinfo |-> {}]
+               ELSE IF kind # "OBJECT" /\ o.ty = "Rogue"
+               \* the resolver handed back a value that is no type of the schema: type
+               \* resolution fails at this position (a recovered panic in the generated code)
+               THEN [d |-> Null, isnull |-> TRUE, errs |-> <<[p |-> rp, c |-> "panic"]>>, pos |-> {}, dinfo |-> {}]
                ELSE LET ct == IF kind = "OBJECT" THEN tname
                               ELSE IF o.ty # "" THEN o.ty ELSE C.S.types[tname].possible[1]
                     IN  ExecSel(C, ct, sels, rp, vp)
